@@ -214,7 +214,7 @@ impl Sub for Bytes {
         "bytes"
     }
     fn rule(&self) -> &'static str {
-        "valid text (both alphabets, lengths 0..200 quick / ..5000 thorough, biased to multiples of 16 +-3, plus texts around 1..4 x 4096 bytes) with 0-2 injected bytes from all 256 values (lower case, other alphabet's letters, NUL, >=0x80, punctuation) and, in a fifth of the cases, 1-2 whole non-ASCII characters (any scalar value; biased to code points whose low byte is a letter of the alphabet) so that the text stays valid UTF-8 and reaches from_str, at positions relative to the 16/32-byte blocks and the scalar tail, and in two fifths of the cases 1-4 runs of one valid or invalid byte whose starts and lengths sit on and around multiples of 16; encode / encode_raw / encode_into (into a reused destination holding a wrong symbol at every position, a whole vector and a sub-slice at offset 1..15 of a larger buffer) on generic, sse2, avx2 and the dispatcher forced to each arm, EncodedSequence::encode, from_str, Display compared with the model (ok iff all bytes in the alphabet; first offending byte reported); sweep = every length n <= 40 (quick) / 100 (thorough) x every position x every byte value, plus every two-byte character and every basic-plane character whose low byte is a letter inside a 5- and a 45-byte text, plus texts of 8192..16389 (thorough: ..32785 and 2 MiB) bytes with an invalid byte at each of the 68 positions around every multiple of 4096, alone and followed by a second one; non-trivial = n > 32 (vector path taken)"
+        "valid text (both alphabets, lengths 0..200 quick / ..5000 thorough, biased to multiples of 16 +-3, plus texts around 1..4 x 4096 bytes) with 0-2 injected bytes from all 256 values (lower case, other alphabet's letters, NUL, >=0x80, punctuation) and, in a fifth of the cases, 1-2 whole non-ASCII characters (any scalar value; biased to code points whose low byte is a letter of the alphabet) so that the text stays valid UTF-8 and reaches from_str, at positions relative to the 16/32-byte blocks and the scalar tail, and in two fifths of the cases 1-4 runs of one valid or invalid byte whose starts and lengths sit on and around multiples of 16; encode / encode_raw / encode_into (into a reused destination holding a wrong symbol at every position, a whole vector and a sub-slice at offset 1..15 of a larger buffer) on generic, sse2, avx2 and the dispatcher forced to each arm, EncodedSequence::encode, from_str, Display compared with the model (ok iff all bytes in the alphabet; first offending byte reported); sweep = every length n <= 40 (quick) / 100 (thorough) x every position x every byte value, plus every two-byte character and every basic-plane character whose low byte is a letter inside a 5- and a 45-byte text, plus texts of 1 and 2 MiB with two invalid bytes (the later one near the start of its half / quarter), plus texts of 8192..16389 (thorough: ..32785 and 2 MiB) bytes with an invalid byte at each of the 68 positions around every multiple of 4096, alone and followed by a second one; non-trivial = n > 32 (vector path taken)"
     }
     fn cases(&self, tier: Tier) -> u64 {
         tier.pick(150_000, 4_000_000)
@@ -305,6 +305,21 @@ impl Sub for Bytes {
                 }
             }
         }
+        // texts of a megabyte and more with TWO invalid bytes, the later one much closer to the start of its half /
+        // quarter of the text than the earlier one is to the start of the text: an encoder that splits long inputs
+        // into parts worked on in lockstep must still report the first one by position
+        for abc in [Abc::Dna, Abc::Protein] {
+            for n in [(1usize << 20) + 70, (1usize << 21) + 33] {
+                for parts in [2usize, 4] {
+                    let part = n / parts / 32 * 32;
+                    for (deep, shallow) in [(part - 40, 7usize), (part / 2 + 5, 32 * 3 + 1), (4096 + 17, 0)] {
+                        for k in 1..parts {
+                            out.push(Case { abc, base: SeqSpec::Seeded { len: n, seed: (n + k) as u64, wild_pct: 2 }, inject: vec![(deep, b'x'), (k * part + shallow, b'y')], chars: Vec::new(), fill: Vec::new() });
+                        }
+                    }
+                }
+            }
+        }
         if tier == Tier::Thorough {
             // 65536 vectors of 32 bytes: a 16-bit vector counter
             let n = (1usize << 21) + 70;
@@ -326,6 +341,7 @@ impl Sub for Bytes {
         info.class_if(bad.is_empty(), "valid");
         info.class_if(bad.len() >= 2, "two-invalid-bytes");
         info.class_if(n >= 4096, "text>=4096-bytes");
+        info.class_if(n >= (1 << 20), "text>=1MiB");
         info.class_if((0..n / 16).any(|k| { let h = &text[k * 16..k * 16 + 16]; h.iter().all(|&b| b == h[0]) }), "a-16-byte-block-of-one-byte");
         info.class_if((0..n / 32).any(|k| { let (a, b) = (&text[k * 32..k * 32 + 16], &text[k * 32 + 16..k * 32 + 32]); a.iter().all(|&x| x == a[0]) && b.iter().all(|&x| x == b[0]) && a[0] != b[0] }), "a-32-byte-block-of-two-uniform-halves");
         info.class_if(text.iter().any(|&b| b >= 0x80) && std::str::from_utf8(&text).is_ok(), "valid-utf8-with-non-ascii-character(str-routes-run)");
